@@ -172,6 +172,7 @@ def gen_regex(r, dense):
     a, b = w[:len(w) // 2], w[len(w) // 2:]
     u = r.random()
     if u < 0.08:
+        PLANT.append(None)                                                   # marks: this rule set has a zero-length atom
         return r.choice(["/[a-z]+x?/", "/.{2}y?/", "/\\w\\w/"])               # no usable atom: zero-length atom in the root state
     if not a or not b:
         return "/%s/" % re_esc(w)
@@ -226,12 +227,17 @@ def gen_buf(r, words, maxlen):
     """a buffer with planted (pieces of) the strings of the rule set, overlapping, plus filler; also the empty buffer"""
     if r.random() < 0.05 or not words:
         return b""
+    if r.random() < 0.2:
+        return r.choice(words)[:maxlen]                     # the buffer IS one string: backtrack == position == |buf| in the pass after the loop
     b = bytearray()
     while len(b) < maxlen:
         w = r.choice(words)
         u = r.random()
         b += w if u < 0.5 else (w[r.randrange(len(w)):] + w[:r.randrange(1, len(w) + 1)] if u < 0.8 else bytes(r.choice(ALPHA) for _ in range(r.randrange(1, 4))))
-    return bytes(b[:r.randrange(1, maxlen + 1)])
+    b = b[:r.randrange(1, maxlen + 1)]
+    if r.random() < 0.3:
+        b += b"~"                                            # ends in the root state: root matches (zero-length atoms) in the pass after the loop
+    return bytes(b)
 
 
 def rulesets(r, kind, tier):
@@ -245,7 +251,11 @@ def rulesets(r, kind, tier):
         dense = r.random() < 0.5
         del PLANT[:]
         src = gen_ruleset(r, kind, n, dense)
-        lines.append("ab%d src=%s atoms=1 cands=1 actab=1 buf=%s" % (i, hx(src.encode()), hx(gen_buf(r, PLANT, 24 if n > 400 else 64))))
+        zero = None in PLANT
+        words = [w for w in PLANT if w]
+        lines.append("ab%d src=%s atoms=1 cands=1 actab=1 buf=%s" % (i, hx(src.encode()), hx(gen_buf(r, words, 24 if n > 400 else 64))))
+        if zero:                                 # root matches: also the empty buffer (only the pass after the loop runs, in the root state)
+            lines.append("ab%dz src=%s atoms=1 cands=1 actab=1 buf=-" % (i, hx(src.encode())))
     if tier == "quick":
         lines += sweep(r, "sw", r.choice([2, 3, 4]), r.randrange(20, 240), 260)
     else:
@@ -265,6 +275,13 @@ def report(chk, bad, lines_by_id, tag):
         if m.get("ac_line"):
             out, _, _ = core.run_lines([core.driver_path(), "ac"], [m["ac_line"]])
             cert = bool(out) and "cert=1" in out[0]
+        if m["table"].startswith("candidate sequence"):
+            chk.violation("acbuild_%s_%d.json" % (tag, i), {
+                "kind": "Aho-Corasick scan: on this rule set and buffer the real candidate sequence (hook yr_verif_on_candidate) differs from the sequence "
+                        "Thm/AcBuild.build_scan_exact proves for the model (%s)" % m["table"],
+                "acbuild": True, "harness": "h_scan", "engine": "acbuild", "harness_line": lines_by_id.get(m["id"]),
+                "driver_line": m["driver_line"], "real_tables_certificate": cert})
+            continue
         chk.violation("acbuild_%s_%d.json" % (tag, i), {
             "kind": "Aho-Corasick construction: the tables of the real automaton differ from the tables the Lean model of ahocorasick.c "
                     "builds from the same atoms (%s); the certificate of Thm/AcCert on the real tables %s" %
